@@ -212,7 +212,7 @@ def streams(seed, nepisodes, prefix, faults=False, big=True):
         yield {'id': '%s%d' % (prefix, i), 'comp': 'dec', 'solo': True, 'ops': ops}
 
 
-def slow_stream(seed, prefix='W', counts=(300, 1100)):
+def slow_stream(seed, prefix='W', counts=(300, 1300)):
     """A slow endpoint next to busy ones: its segmented message stays open while hundreds or thousands of frames of
     other endpoints pass (unsegmented traffic and whole segmented messages, so that first segments arrive meanwhile);
     every one of its own frames arrives, in order - the message must be delivered (C05 / C17 / C18; round5a-8,
@@ -236,7 +236,7 @@ def slow_stream(seed, prefix='W', counts=(300, 1100)):
             if last:
                 break
             # the others talk: mostly small unsegmented frames, now and then a whole segmented message
-            for j in range(nforeign // 2):
+            for j in range(nforeign):
                 o = others[j % len(others)]
                 if j % 97 == 50:
                     q = logical(rng, 'generic', 40, o.ver)
